@@ -33,6 +33,15 @@ def generate(ctx):
             # make limit_sigma likely to bind: large tau relative to sigma
             case["cfg"]["tau"] = case["cfg"]["beta"] * ctx.rng.choice([1, 3, 10])
             case["call"]["limit_sigma"] = True
+        if ctx.rng.random() < 0.06:
+            # "certain" players: sigma exactly 0 next to a team-mate with positive sigma (their share of the update is 0);
+            # also with an effective tau of 0
+            for t in case["teams"]:
+                if len(t) >= 2:
+                    t[ctx.rng.randrange(1, len(t))][1] = 0.0
+            if ctx.rng.random() < 0.5:
+                case["call"]["tau"] = 0
+            meta["certain_players"] = True
         yield "game", dict(case=case, meta=meta)
 
 
@@ -50,6 +59,8 @@ def probe_game(ctx, payload):
         ctx.violation("shape", "game", payload, dict(err=run.shape_err), model, reg)
         return
     common_buckets(ctx, run, meta)
+    if meta.get("certain_players"):
+        ctx.count("games_with_sigma0_players")
     res = run.obs.res
     # identity: id and name at each slot; all result objects distinct
     ctx.ev("identity")
